@@ -15,9 +15,10 @@ structure SRP where
   kind : PKind
   tp : Nat
   v : Nat
+  esize : Nat := 1
 
 def SRP.t (p : SRP) : CurTask := ⟨p.tp, p.v⟩
-def SRP.g0 (p : SRP) : GChan := { c := p.c, fut := false, gw := false, kind := p.kind, adapter := false }
+def SRP.g0 (p : SRP) : GChan := { c := p.c, fut := false, gw := false, kind := p.kind, adapter := false, esize := p.esize }
 def SRP.task (p : SRP) (reg : Option Nat) : Option CabiTask := if p.v = 2 then some ⟨p.tp, reg⟩ else none
 
 /-- which future owns the read in flight -/
@@ -149,7 +150,7 @@ theorem srUpdate_ok3 (p : SRP) (buf : List Nat) (spare : Nat) (slab : Bool) (mem
     hostApplyAll c h (if q then [Ev.free c'] else []) = (h, if q then [Ev.free c'] else []) := by
   split <;> rfl
 
-theorem growCap_gt (k : PKind) (n : Nat) : growCap k n - n ≠ 0 := by
+theorem growCap_gt (k : Nat) (n : Nat) : growCap k n - n ≠ 0 := by
   unfold growCap; split <;> omega
 
 macro "sr_eval" : tactic => `(tactic|
@@ -227,10 +228,10 @@ def freshSpare (p : SRP) (k : RopK) (spare : Nat) : Nat :=
   match k with
   | .plain => spare
   | .next => 1
-  | .coll => growCap p.kind 0 - 0
+  | .coll => growCap p.esize 0 - 0
 
 /-- spare capacity `collect` continues with after a read left `spare` (`reserve(1)` when full) -/
-def nextSpare (p : SRP) (len spare : Nat) : Nat := if spare = 0 then growCap p.kind len - len else spare
+def nextSpare (p : SRP) (len spare : Nat) : Nat := if spare = 0 then growCap p.esize len - len else spare
 
 theorem nextSpare_ne (p : SRP) (len spare : Nat) : nextSpare p len spare ≠ 0 := by
   unfold nextSpare; split
